@@ -91,7 +91,7 @@ pub fn gen_req(rng: &mut Rng, keep: bool, noise_level: u64, mc: usize, bufsize: 
             let data = rng.bytes(len);
             ops.push(format!("W{which}:{}", hexd(&data)));
             if !data.is_empty() { outs.push((if which == 0 { T_STDOUT } else { T_STDERR }, data)); }
-            if rng.chance(1, 5) { ops.push(format!("F{which}")); }
+            if rng.chance(1, 3) { ops.push(format!("F{which}")); }
         }
         // rarely a StreamWriter is still alive when the handler returns: close() must fail ("StreamWriter(s) not dropped"),
         // no epilogue is written and the connection is torn down
@@ -302,11 +302,15 @@ pub fn run_c08(ctx: &mut Ctx) {
         // flatten to a record list with request boundaries, then insert one query at a random position
         let mut recs: Vec<(Rec, usize)> = vec![];   // (record, request index)
         for (i, p) in plans.iter().enumerate() { for r in &p.recs { recs.push((r.clone(), i)); } }
-        let pos = rng.usize_below(recs.len() + 1);
+        // sometimes the connection starts with a request that the client aborts during its Params stream, and the query follows the
+        // AbortRequest record at once (same transport read): the abort's EndRequest AND the query's reply are owed before the task
+        // may wait for more input
+        let prelude: Vec<Rec> = if rng.chance(1, 4) { let pb = nv_enc(b"SCRIPT_NAME", b"/aborted"); vec![begin(5, 1, 1, pad_bytes(&mut rng)), Rec::new(T_PARAMS, 5, pb[..1 + rng.usize_below(pb.len() - 1)].to_vec(), pad_bytes(&mut rng)), Rec::new(T_ABORT, 5, vec![], pad_bytes(&mut rng))] } else { vec![] };
+        let pos = if prelude.is_empty() { rng.usize_below(recs.len() + 1) } else { 0 };
         let q = if rng.chance(2, 3) { Rec::new(T_GETVALUES, 0, nv_enc(*rng.pick(&VAR_NAMES[..]), b""), pad_bytes(&mut rng)) } else { Rec::new(rng.range(12, 255) as u8, if rng.chance(1, 2) { 0 } else { rng.below(65536) as u16 }, rng.bytes(rng.clone().usize_below(10)), vec![]) };
         let qreq = if pos < recs.len() { recs[pos].1 } else { k - 1 };
         // the query between two requests is sent only after the previous EndRequest (the peer keeps one request outstanding)
-        let placement = if pos == 0 { "before-first-request" } else if pos == recs.len() { "after-last-request" } else if recs[pos - 1].1 != recs[pos].1 { "between-requests" }
+        let placement = if !prelude.is_empty() { "right-after-abort-in-params" } else if pos == 0 { "before-first-request" } else if pos == recs.len() { "after-last-request" } else if recs[pos - 1].1 != recs[pos].1 { "between-requests" }
             else { let r = &recs[pos - 1].0; if r.rtype == T_PARAMS && r.content.is_empty() { "right-after-params" } else if r.rtype == T_PARAMS || r.rtype == T_BEGIN { "inside-preamble" } else { "mid-stream" } };
         or.count(&format!("placement={placement}"));
         // The peer: sends records in order; after the query it withholds everything until the reply record arrived; it keeps one
@@ -318,10 +322,11 @@ pub fn run_c08(ctx: &mut Ctx) {
         let mut after_query = false;
         for i in 0..=recs.len() {
             if i == pos {
+                for r in &prelude { cur.extend(r.ser()); }
                 cur.extend(q.ser());
                 // flush: everything after the query waits for the reply
                 segs.push(format!("{}{}", hexd(&cur), cur_gate)); cur.clear();
-                cur_gate = format!("@X{}", hex(&reply)); after_query = true;
+                cur_gate = if prelude.is_empty() { format!("@X{}", hex(&reply)) } else { format!("@X{}&I5", hex(&reply)) }; after_query = true;
             }
             if i == recs.len() { break; }
             let (r, ri) = &recs[i];
@@ -344,7 +349,8 @@ pub fn run_c08(ctx: &mut Ctx) {
         let got_reply = recs_out.iter().any(|r| r.ser() == reply);
         let n_end = recs_out.iter().filter(|r| r.rtype == T_END).count();
         if tr.fin != "STALL" && tr.fin != "RET" { or.fail(format!("connection task ended with {}", tr.fin), log.replay_block(), format!("C08:fin-{}", tr.fin)); }
-        if !got_reply || n_end != k {
+        let k_end = k + if prelude.is_empty() { 0 } else { 1 };
+        if !got_reply || n_end != k_end {
             or.fail(format!("query ({}, record type {}) placed {placement}: the task is suspended waiting for input while the peer still waits for {} — {} of {k} requests answered; the two sides wait on each other",
                 if q.rtype == T_GETVALUES { "GetValues" } else { "unknown type" }, q.rtype, if got_reply { "nothing it is owed" } else { "the reply to its query" }, n_end), log.replay_block(), format!("C08:wait-cycle:{placement}"));
         }
@@ -524,6 +530,12 @@ pub fn run_c12(ctx: &mut Ctx) {
         for i in (0..nreads).step_by(step) { for (tag, ek) in [("", ""), ("A", " ek=a")] { faults.push((format!("readerr{tag}@{i}"), format!("t.run B={b} mc={mc} in={} end=eof rd={} wr={wr} fl=- stop=none h={hs}{ek}", hexd(&wire), set_nth(&rd, i, "E")))); } }
         let step = if thorough || nwrites <= 150 { 1 } else { (nwrites / 150).max(1) };
         for i in (0..nwrites).step_by(step) { for (tag, what, ek) in [("E", "E", ""), ("Z", "Z", ""), ("EA", "E", " ek=a")] { faults.push((format!("write{tag}@{i}"), format!("t.run B={b} mc={mc} in={} end=eof rd={rd} wr={} fl=- stop=none h={hs}{ek}", hexd(&wire), set_nth(&wr, i, what)))); } }
+        // a failing poll_flush of the transport, at every flush-call index, with handlers that IGNORE the error and carry on (a failed
+        // flush releases the output mutex, unlike a failed write: other writers, management replies and close() must still get through)
+        { let nflush = trb.events.iter().filter(|e| e.starts_with("F:")).count();
+          let hs_ign: String = plans.iter().map(|p| if p.script == "-" || p.script.starts_with('~') { p.script.clone() } else { format!("~{}", p.script) }).collect::<Vec<_>>().join(";");
+          for i in 0..nflush { for (tag, h) in [("", &hs), ("I", &hs_ign)] {
+              faults.push((format!("flushE{tag}@{i}"), format!("t.run B={b} mc={mc} in={} end=eof rd={rd} wr={wr} fl={} stop=none h={h}", hexd(&wire), set_nth("-", i, "E").replace('A', "O")))); } } }
         for (fi, (kind, op)) in faults.iter().enumerate() {
             log.case(&format!("c12-{ci}-{fi}"));
             let o = ex(&mut log, &mut im, op);
